@@ -432,6 +432,9 @@ Definition set_inskip (st : mstate) (b : bool) := mk_st (m_stk st) (m_glob st) b
 Definition set_skipd (st : mstate) (d : nat) := mk_st (m_stk st) (m_glob st) (m_inskip st) d (m_buf st).
 Definition set_buf (st : mstate) (b : list Z) := mk_st (m_stk st) (m_glob st) (m_inskip st) (m_skipd st) b.
 
+(* len(stk) of the pooled visitor (defaultStkDepth) = the value at which the uint8 sp wraps: push fails with the
+   max-depth ERROR exactly when 256 frames are in use; Check09 judges the boundary with this machine (an earlier error,
+   a later one or a panic on a document the denotation accepts is a violation) *)
 Definition STK_DEPTH : nat := 256.
 
 Section Machine.
